@@ -16,15 +16,18 @@ PLAN = {
         "rule": ("rapid-generated op programs (write shapes by class, read, snapshot user/auto, cleaner-style removal, revert, "
                  "reopen/reload with and without preload, punching on/off, RW/WO, unmap, resize) run against the real replica.Server "
                  "and a byte-array model, full read compared after every step; non-trivial = >=1 snapshot, >=1 write after it and a "
-                 "removal/reopen/reload/revert; distinct = FNV hash of the op program"),
+                 "removal/reopen/reload/revert; distinct = FNV hash of the op program; TestC01Range: controller-level reads/writes on an RF 1-3 stack at offsets inside, "
+                 "ending at, crossing, at and far beyond the end of the volume, negative and overflowing int64 - out-of-range requests must fail, reach no replica and detach nothing"),
         "assumptions": ENGINE_ASSUME,
         "quick": {"wall": 120, "tests": [
-            {"run": "TestC01", "shards": 14, "checks": 120, "timeout": 100, "real_drainer_shards": 0},
+            {"run": "TestC01", "shards": 12, "checks": 120, "timeout": 100, "real_drainer_shards": 0},
             {"run": "TestC01", "shards": 1, "checks": 6, "timeout": 100, "real_drainer_shards": 1},
+            {"run": "TestC01Range", "shards": 3, "checks": 60, "timeout": 100},
         ]},
         "thorough": {"wall": 900, "tests": [
-            {"run": "TestC01", "shards": 14, "checks": 3000, "timeout": 840},
+            {"run": "TestC01", "shards": 11, "checks": 3000, "timeout": 840},
             {"run": "TestC01", "shards": 2, "checks": 60, "timeout": 840, "real_drainer_shards": 2},
+            {"run": "TestC01Range", "shards": 3, "checks": 2500, "timeout": 840},
         ]},
     },
 
